@@ -5,7 +5,7 @@ import re
 from analysis.facts import callee, callee_short
 from analysis.cfg import cfg
 from analysis.guards import resolve_cond
-from analysis.defuse import Tracer, du
+from analysis.defuse import Tracer, du, full_lineage, INT_METHOD
 from analysis.tables import char_consts_compared
 
 INT_TYPES = ('usize', 'u8', 'u16', 'u32', 'u64', 'i8', 'i16', 'i32', 'i64', 'isize', 'bool', 'u128', 'i128')
@@ -152,6 +152,14 @@ class JsonSites:
                 return sep_ok and els_ok, 'join(%s)' % why
             if cs in ('<T as ToString>::to_string', 'usize::to_string') and (t['f'].get('targs') or ['?'])[0] in INT_TYPES:
                 return True, 'integer to_string'
+            if cs in ('String::new', 'String::with_capacity') and 'p' not in t['dest']:
+                # a string built piece by piece (`let mut out = String::new(); out.push_str(..)`): the same thing as a
+                # format / join, written as a loop
+                mk = ('built', fn.p, t['dest']['l'])
+                if mk not in self.memo:
+                    self.memo[mk] = (False, 'string built from itself')
+                    self.memo[mk] = self.built_string_safe(fn, t['dest']['l'], depth + 1)
+                return self.memo[mk]
             # a helper of the tool itself whose result is built only from safe fragments (json_quote(s) =
             # format!("\"{}\"", escape_json_string(s)); a list helper joining such fragments)
             h = self.prog.fns.get(callee(t))
@@ -226,6 +234,93 @@ class JsonSites:
                         return False, 'pushes ' + why
                 return True, 'every pushed element is safe'
         return False, 'collection of unknown origin'
+
+    def built_string_safe(self, fn, l0, depth):
+        """A String that starts empty in local l0 and is filled through `&mut` borrows: every piece appended is a literal
+        (it plays the part of a format template's text), a constant character, or a fragment that is safe by the same
+        rule as a format argument; and nothing else gets hold of a mutable borrow of it (an unknown callee could append
+        anything - refused)."""
+        d = du(fn)
+
+        def whole(o):
+            return o.get('k') in ('copy', 'move') and 'p' not in o['pl']
+
+        def mentioned(x):
+            if isinstance(x, dict):
+                if isinstance(x.get('l'), int) and not isinstance(x.get('k'), str):
+                    yield x['l']
+                for k_, v in x.items():
+                    if k_ != 'sp':
+                        yield from mentioned(v)
+            elif isinstance(x, list):
+                for v in x:
+                    yield from mentioned(v)
+        # the locals the string itself lives in (moved on whole), and the locals holding a mutable borrow of it
+        owners, borrows = {l0}, set()
+        grew = True
+        while grew:
+            grew = False
+            for bb, si, s in fn.stmts():
+                if s['k'] != 'assign' or 'p' in s['pl']:
+                    continue
+                rv, tgt = s['rv'], s['pl']['l']
+                if rv['k'] == 'use' and whole(rv['op']):
+                    src = rv['op']['pl']['l']
+                    for group in (owners, borrows):
+                        if src in group and tgt not in group:
+                            group.add(tgt)
+                            grew = True
+                elif rv['k'] == 'ref' and rv.get('mut'):
+                    pl = rv['pl']
+                    direct = pl['l'] in owners and 'p' not in pl
+                    reborrow = pl['l'] in borrows and [pe['k'] for pe in pl.get('p', [])] == ['deref']
+                    if (direct or reborrow) and tgt not in borrows:
+                        borrows.add(tgt)
+                        grew = True
+        pieces = []
+        for bb, si, s in fn.stmts():
+            if s['k'] != 'assign':
+                continue
+            rv = s['rv']
+            used = set(mentioned(rv)) & borrows
+            if not used:
+                continue
+            tgt_ok = 'p' not in s['pl'] and s['pl']['l'] in borrows
+            if not (tgt_ok and ((rv['k'] == 'use' and whole(rv['op'])) or (rv['k'] == 'ref' and rv.get('mut')))):
+                return False, 'string under construction: its mutable borrow is used by %s' % rv['k']
+        for bb, t in fn.calls():
+            hit = [i for i, a in enumerate(t['args']) if set(mentioned(a)) & borrows]
+            if not hit:
+                continue
+            cs = callee_short(t)
+            if hit != [0] or not whole(t['args'][0]):
+                return False, 'string under construction is handed to %s' % cs
+            if cs in ('String::push_str', '<String as AddAssign>::add_assign', '<String as Write>::write_str'):
+                pieces.append(('str', t['args'][1], bb))
+            elif cs == 'String::push' or cs == '<String as Write>::write_char':
+                pieces.append(('char', t['args'][1], bb))
+            elif cs.endswith('::write_fmt'):
+                pieces.append(('fmt', t['args'][1], bb))
+            elif cs in ('String::reserve', 'String::shrink_to_fit', 'String::clear', 'String::pop', 'String::truncate'):
+                continue        # takes text away at most
+            else:
+                return False, 'string under construction is handed to %s' % cs
+        whys = []
+        for kind, o, bb in pieces:
+            p = producer(fn, o)
+            if p[0] == 'const':
+                continue        # literal text of the developer's: the template
+            if kind == 'char':
+                return False, 'appends a character that is not a constant'
+            if kind == 'fmt':
+                ok, why = self.site_safe(fn, p[1], depth + 1) if p[0] == 'call' and callee_short(p[2]) == 'Arguments::new' \
+                    else (False, 'write of unknown arguments')
+            else:
+                ok, why = self.safe_value(fn, o, 'str', depth + 1)
+            if not ok:
+                return False, 'appends ' + why
+            whys.append(why)
+        return True, 'built from literals and %d safe fragments (%s)' % (len(whys), '; '.join(sorted(set(whys))[:3]))
 
     def return_safe(self, fn, depth):
         return self.safe_value(fn, {'k': 'copy', 'pl': {'l': 0}}, 'String', depth)
@@ -416,21 +511,33 @@ def run(chk, prog):
     pi = prog.fn('player::parse_input')
     n_pay = 0
     if chk.anchor(RD, 'player::parse_input', pi):
-        for bb, si, s in pi.stmts():
-            if s['k'] == 'assign' and s['rv']['k'] == 'agg' and s['rv'].get('var') in ('Divert', 'Choice'):
+        # the places where a payload-carrying result is built: the aggregate itself, or the variant's constructor handed
+        # as a function to an adaptor (`opt.map_or(Unknown, InputResult::Choice)`: the payload is what the adaptor's
+        # receiver carries)
+        built = []
+        for g in prog.with_closures(pi):
+            for bb, si, s in g.stmts():
+                if s['k'] == 'assign' and s['rv']['k'] == 'agg' and s['rv'].get('var') in ('Divert', 'Choice'):
+                    built.append((g, s['rv']['var'], s['rv']['ops'], g.loc(bb, si)))
+            for bb, t in g.calls():
+                for a in t['args'][1:]:
+                    ctor = a.get('fn', '') if a.get('k') == 'const' else ''
+                    if ctor.rsplit('::', 1)[-1] in ('Divert', 'Choice') and '::InputResult::' in ctor and t['args']:
+                        built.append((g, ctor.rsplit('::', 1)[-1], t['args'][:1], g.loc(bb)))
+        if True:
+            for g, var, ops_, loc_ in built:
                 n_pay += 1
                 at = set()
-                for o in s['rv']['ops']:
-                    at |= lt.prov(pi, o)
+                for o in ops_:
+                    at |= full_lineage(prog, g, o, _lt=lt)
                 rw = rewrites(at)
-                var = s['rv']['var']
                 if var == 'Choice':
                     rw = [x for x in rw if not x.endswith(('lowercase', 'uppercase'))]   # digits have no case
                 chk.decide(RD, chk.key(RD, 'parse_input', var), 'arg:1' in at and not rw,
                            'payload selected from the input text',
                            'parse_input builds InputResult::%s from %s: what reaches the library is not the text the user '
                            'typed' % (var, ('a rewritten copy of the input (%s)' % ', '.join(rw)) if rw else
-                                      'something other than its input'), pi.loc(bb, si))
+                                      'something other than its input'), loc_)
         chk.floor(RD, 'payload-carrying results built by parse_input', n_pay, 2)
     n_calls = 0
     for fn in prog.fns.values():
@@ -450,6 +557,7 @@ def run(chk, prog):
                                'was rewritten on the way (%s)' % ', '.join(rw)) if rw else
                                'does not come from parse_input'), fn.loc(bb))
     chk.floor(RD, 'library choice calls in rinklecate', n_calls, 2)
+    divert_is_a_host_jump(chk, prog, tr)
     # numbering: the number printed for a choice and the number accepted for it differ from the index by the same constant
     pl_ = prog.fn('player::play')
     if pi is not None and chk.anchor(RD, 'player::play', pl_):
@@ -468,11 +576,20 @@ def run(chk, prog):
                     if zipped:
                         shown.add(s['rv']['ops'][0]['int'])
         taken = set()
-        for bb, si, s in pi.stmts():
-            if s['k'] == 'assign' and s['rv']['k'] == 'binop' and s['rv']['op'].startswith('Sub') \
-                    and s['rv']['b'].get('k') == 'const' and 'int' in s['rv']['b'] \
-                    and any(a == 'via:str::parse' for a in lt.prov(pi, s['rv']['a'])):
-                taken.add(s['rv']['b']['int'])
+        for g in prog.with_closures(pi):
+            # the subtraction is the operator or the integer method that computes the same difference where there is
+            # one (`n.checked_sub(1)`, `n.wrapping_sub(1)`; not `saturating_sub`, which maps 0 onto the first choice),
+            # in parse_input or in a closure it hands to an adaptor of the parsed number
+            subs = [(s['rv']['a'], s['rv']['b']) for bb, si, s in g.stmts()
+                    if s['k'] == 'assign' and s['rv']['k'] == 'binop' and s['rv']['op'].startswith('Sub')]
+            for bb, t in g.calls():
+                m = INT_METHOD.match(callee_short(t))
+                if m and m.group(2) in ('checked_sub', 'wrapping_sub', 'strict_sub', 'overflowing_sub') and len(t['args']) == 2:
+                    subs.append((t['args'][0], t['args'][1]))
+            for a_, b_ in subs:
+                if b_.get('k') == 'const' and 'int' in b_ \
+                        and any(a == 'via:str::parse' for a in full_lineage(prog, g, a_, _lt=lt)):
+                    taken.add(b_['int'])
         chk.decide(RD, chk.key(RD, 'choice-numbering'), len(shown) == 1 and shown == taken,
                    'choices are shown as index + %s and read back as number - %s' % (sorted(shown), sorted(taken)),
                    'choice numbering disagrees: shown as index + %s, read back as number - %s: the number typed selects '
@@ -492,7 +609,9 @@ def run(chk, prog):
                       if any('via:Story::cont' in lt.prov(es, o) for o, ty, ab in args)]
         tag_reads = [bb for bb, t in es.calls() if callee_short(t) == 'Story::get_current_tags']
         flushes = [bb for bb, t in es.calls() if callee_short(t) == 'player::flush_messages']
-        heads = list(ge.loops_heads())
+        # "the next iteration" is the head of a loop the Story::cont call sits in; a loop that merely follows it inside the
+        # iteration (a `for` over the tags that builds the line to print) is passed through, not a place where the step ends
+        heads = [h for h, tails in ge.loops_heads().items() if any(cb in ge.loop_body(h, tails) for cb in conts)]
         from analysis.wbf import err_exits
         errs = [b for b, d, s in err_exits(prog, es)]
         if chk.anchor(RE, 'Story::cont in evaluate_story', conts) and chk.anchor(RE, 'print of the step text', text_sites):
@@ -552,6 +671,56 @@ def run(chk, prog):
                                            'messages-flushed': 'flushing the collected messages'}[what],
                            es.loc(conts[0]), {'witness_blocks': bad})
     every_play_path_allows_fallbacks(chk, prog, tr)
+
+
+def divert_is_a_host_jump(chk, prog, tr):
+    RG = 'C20.divert-is-a-host-jump'
+    chk.rule(RG, 'A divert typed at the prompt is the library\'s jump from the host: at every call of '
+             'Story::choose_path_string made by rinklecate the reset-call-stack flag is the constant true (the library '
+             'then discards the frames the story was waiting in, as it does for any host that jumps by path) and no '
+             'arguments are passed (None: the prompt has no syntax for them). A call that keeps the call stack, or makes '
+             'the flag depend on anything, continues in the old frames and shows other lines than the library driven '
+             'with the same input.')
+    lib = [f for f in prog.fns_named('Story::choose_path_string') if f.crate != 'rinklecate']
+    if not chk.anchor(RG, 'Story::choose_path_string (library)', lib):
+        return
+    lf = lib[0]
+    argc = lf.body['argc']
+    flags = [i for i in range(1, argc + 1) if lf.local_ty(i).strip() == 'bool']
+    optargs = [i for i in range(1, argc + 1) if lf.local_ty(i).strip().startswith(('core::option::Option<', 'Option<'))]
+    if not chk.anchor(RG, 'exactly one bool parameter (reset call stack) and one Option parameter (arguments) of '
+                      'Story::choose_path_string', len(flags) == 1 and len(optargs) == 1):
+        return
+    fi, ai = flags[0] - 1, optargs[0] - 1
+    n = 0
+    for fn in sorted(prog.fns.values(), key=lambda f: f.p):
+        if fn.crate != 'rinklecate':
+            continue
+        for bb, t in fn.calls():
+            if callee_short(t) != 'Story::choose_path_string':
+                continue
+            total += 1
+            root = prog.root_fn(fn).short
+            n = ords[root] = ords.get(root, 0) + 1
+            if len(t['args']) <= max(fi, ai):
+                chk.fail(RG, chk.key(RG, root, '#%d' % n, 'call-shape'),
+                         'call of Story::choose_path_string with %d arguments: flag / arguments not found; failing closed'
+                         % len(t['args']), fn.loc(bb))
+                continue
+            fa = tr.prov(fn, t['args'][fi])
+            chk.decide(RG, chk.key(RG, root, '#%d' % n, 'call-stack-reset'), fa == {'const:true'},
+                       'the call stack is reset (constant true)',
+                       '%s jumps to the typed path with a reset-call-stack flag that is not the constant true (%s): the '
+                       'frames the story was waiting in (a tunnel, a thread) survive the jump, so `->->` or running out of '
+                       'content continues in the old caller where the library, driven as a host drives it, reports an '
+                       'error or ends' % (root, ', '.join(sorted(fa)) or 'unknown'), fn.loc(bb))
+            aa = tr.prov(fn, t['args'][ai])
+            chk.decide(RG, chk.key(RG, root, '#%d' % n, 'no-arguments'), aa == {'agg:Option::None'},
+                       'no arguments are passed (None)',
+                       '%s passes arguments to the typed path (%s) although the prompt has no way to give any: the '
+                       'target starts with values on the evaluation stack / temporaries the library call with the same '
+                       'input does not set' % (root, ', '.join(sorted(aa))[:160] or 'unknown'), fn.loc(bb))
+    chk.floor(RG, 'Story::choose_path_string calls in rinklecate', n, 1)
 
 
 def every_play_path_allows_fallbacks(chk, prog, tr):
